@@ -169,7 +169,7 @@ def bind(run):
                         "(known finding F-C06-2)",
                         "reschedulable pods protected by do-not-disrupt / fully blocking PDBs are C07's business (the node is "
                         "ineligible), C01's listed known-finding classes are C01's business",
-                        "no DaemonSets, volumes, reserved capacity or topology constraints in these clusters (C01/C02/C17 cover them)"]
+                        "plain DaemonSets and capacity reservations occur; no volumes, topology constraints or DRA in these clusters (C01/C02/C17)"]
 
 
 def judge(run, scen, prefix="c06"):
